@@ -10,13 +10,17 @@ THEOREMS = [
     "Vinegar.C11.doc_complete",
     "Vinegar.C11.c11Check_compile",
     "Vinegar.C11.cycle_raises",
+    "Vinegar.C11.cycle_never_ok",
     "Vinegar.C11.missing_raises",
     "Vinegar.C11.nonmapping_raises",
+    "Vinegar.C11.bad_include_raises",
     "Vinegar.C11.empty_name_raises",
     "Vinegar.C11.above_root_raises",
     "Vinegar.C11.never_partial",
     "Vinegar.C11.preceding_not_merged",
+    "Vinegar.C11.merge_key_order",
     "Vinegar.C11.expand_fuel_adequate_partial",
+    "Vinegar.C11.compile_fuel_adequate_partial",
 ]
 TRUSTED_BASE = Y.TRUSTED_BASE
 ASSUMPTIONS = Y.ASSUMPTIONS
